@@ -12,8 +12,8 @@
 From NV Require Import Base Regex Generated.
 From NV Require C09_Model C09_Spec C13_Model.
 From NV Require Import C13_Compose.
-Open Scope string_scope.
 Open Scope list_scope.
+Open Scope string_scope.
 
 (* the vocabularies of the two properties coincide *)
 Theorem C13_C09_names_coincide : forall nm,
